@@ -34,7 +34,7 @@ CHECKS = {
     "C19": {"harnesses": [("harness.functions", "C19_TickRounding"), ("harness.functions", "C19_TickRoundingInRun")]},
     "C20": {"harnesses": [("harness.agents", "C20_FCN"), ("harness.agents", "C20_MarketShareFCN"),
                           ("harness.agents", "C20_MarketMaker"), ("harness.agents", "C20_Arbitrage"),
-                          ("harness.agents", "C20_TestAgentOrders")]},
+                          ("harness.agents", "C20_TestAgentOrders"), ("harness.agents", "C20_Populations")]},
     "C06": {"harnesses": [("harness.clock", "C06_ClockAndHistory")]},
     "C07": {"harnesses": [("harness.repro", "C07_Reproducible")], "post": ("harness.repro", "post")},
     "C08": {"harnesses": [("harness.ophistory", "C08_OpHistory"), ("harness.priority", "C08_HeapMaintenance")]},
